@@ -39,6 +39,8 @@ def encColDesc (c : ColDesc) (fmt : Nat) : Bytes :=
   c.name ++ [0] ++ be32 (toU32 c.table) ++ be16 (toU16 c.attrNo) ++ be32 c.oid
     ++ be16 (toU16 c.width) ++ be32 (toU32 (-1)) ++ be16 fmt
 
+def encCol (p : ColDesc × Nat) : Bytes := encColDesc p.1 p.2
+
 def encField : Option Bytes → Bytes
   | none => be32 (toU32 (-1))
   | some v => be32 v.length ++ v
@@ -56,7 +58,7 @@ def body : BMsg → Bytes
   | paramStatus k v => k ++ [0] ++ v ++ [0]
   | ready s => [s]
   | error b => b
-  | rowDesc cols => be16 cols.length ++ cols.flatMap (fun (c, f) => encColDesc c f)
+  | rowDesc cols => be16 cols.length ++ cols.flatMap encCol
   | dataRow fs => be16 fs.length ++ fs.flatMap encField
   | complete t => t ++ [0]
   | emptyQuery | parseComplete | bindComplete | closeComplete | noData => []
